@@ -1235,6 +1235,11 @@ class _TeeIterator(Iterator[_ValueT]):
       self._exhausted = True
       self._returned = e.value
       raise e
+    except Exception:
+      # A failed read still takes one turn downstream (the error), records a
+      # placeholder so that the later elements stay aligned with their inputs.
+      self._buffer.append(None)
+      raise
     if self._buffer_size and len(self._buffer) == self._buffer_size:
       raise RuntimeError(
           f'Buffer reached capacity: {len(self._buffer)} / {self._buffer_size}.'
